@@ -20,6 +20,8 @@ type forP struct {
 	Root    string `json:"root"`   // "./" | "/" | "top/"
 	RS      int    `json:"rs"`
 	Pad     int    `json:"pad"` // extra zero blocks after the trailer (tar blocking factor)
+	Global  bool   `json:"global,omitempty"` // pax: the archive starts with a global extended header, as `git archive` writes one
+	Dup     bool   `json:"dup,omitempty"`    // one regular member occurs twice (`tar -r` of a changed file): the later one is the file
 	Witness string `json:"witness,omitempty"`
 }
 
@@ -29,6 +31,8 @@ type fEnt struct {
 	Mode int64
 	Sym  string // symbolic link member: target as written by tar (relative to the link's directory)
 	Hard string // hard link member: model path of the member it links to
+	Special byte     // tar.TypeFifo / TypeChar / TypeBlock member (tar of a directory holding device nodes or pipes)
+	Holes [][2]int64 // old GNU sparse member as `tar -S` writes it: (offset, length) of the data fragments inside Data
 }
 
 func forCases(prop, tier string, seed uint64) []Case {
@@ -42,7 +46,7 @@ func forCases(prop, tier string, seed uint64) []Case {
 		for _, f := range []string{"ustar", "pax", "gnu"} {
 			for _, root := range []string{"./", "/", "top/", ".hid/", "top dir/"} {
 				// padding after the trailer as tar's blocking factor produces it (any number of zero blocks up to one tar record)
-				p := forP{Format: f, Root: root, RS: []int{1, 20, 64, 128, 512}[(rep+i)%5], Pad: []int{0, 1, 2, 3, 5, 17, 18}[(rep*3+i/3)%7]}
+				p := forP{Format: f, Root: root, RS: []int{1, 20, 64, 128, 512}[(rep+i)%5], Pad: []int{0, 1, 2, 3, 5, 17, 18}[(rep*3+i/3)%7], Global: f == "pax" && rep%3 == 1, Dup: rep%4 == 2}
 				pb, _ := json.Marshal(p)
 				cases = append(cases, Case{ID: fmt.Sprintf("c17-%04d-%s-%s", i, f, strings.ReplaceAll(root, "/", "_")), Seed: subSeed(seed, prop, tier, fmt.Sprint(i)), Kind: "random", P: pb})
 				i++
@@ -110,6 +114,27 @@ func genForeignTree(seed uint64, format string) (map[string]*fEnt, []string) {
 		}
 	}
 	rec("/", 0)
+	if r.Intn(4) == 0 {
+		p := "/pipe-or-node"
+		if _, exists := ents[p]; !exists {
+			ents[p] = &fEnt{Special: []byte{tar.TypeFifo, tar.TypeChar, tar.TypeBlock}[r.Intn(3)], Mode: 0o644}
+			order = append(order, p)
+		}
+	}
+	if format == "gnu" && r.Intn(2) == 0 {
+		// a file with a hole, archived with `tar -S`: its size on the tape is smaller than its length
+		logical := make([]byte, 262144+777)
+		copy(logical, genContent(1024, "text", r.Uint64()))
+		copy(logical[262144:], genContent(777, "random", r.Uint64()))
+		p := "/sparse.img"
+		ents[p] = &fEnt{Data: logical, Mode: 0o644, Holes: [][2]int64{{0, 1024}, {262144, 777}}}
+		// not the last member: what follows it has to be found
+		at := r.Intn(len(order) + 1)
+		if at == len(order) && len(order) > 0 {
+			at = len(order) - 1
+		}
+		order = append(order[:at], append([]string{p}, order[at:]...)...)
+	}
 	if len(order) < 3 {
 		for _, c := range []string{"f1", "f2", "README"} {
 			p := "/" + c
@@ -139,6 +164,27 @@ func writeForeignTar(p forP, ents map[string]*fEnt, order []string) ([]byte, err
 		return n
 	}
 	top := p.Root
+	if p.Global && p.Format == "pax" {
+		if err := tw.WriteHeader(&tar.Header{Typeflag: tar.TypeXGlobalHeader, Name: "pax_global_header", PAXRecords: map[string]string{"comment": "0123456789abcdef0123456789abcdef01234567"}, Format: tar.FormatPAX}); err != nil {
+			return nil, err
+		}
+	}
+	if p.Dup {
+		// an older version of the first regular member, written before the current one
+		for _, pp := range order {
+			if e := ents[pp]; !e.Dir && e.Sym == "" && e.Hard == "" && len(e.Holes) == 0 && path.Dir(pp) == "/" {
+				old := genContent(len(e.Data)/2+17, "text", uint64(len(pp)))
+				if err := tw.WriteHeader(&tar.Header{Typeflag: tar.TypeDir, Name: top, Mode: 0o755, ModTime: mt, Format: format}); err != nil {
+					return nil, err
+				}
+				if err := tw.WriteHeader(&tar.Header{Typeflag: tar.TypeReg, Name: name(pp, false), Mode: 0o600, Size: int64(len(old)), ModTime: mt.Add(-time.Hour), Format: format}); err != nil {
+					return nil, err
+				}
+				_, _ = tw.Write(old)
+				break
+			}
+		}
+	}
 	if err := tw.WriteHeader(&tar.Header{Typeflag: tar.TypeDir, Name: top, Mode: 0o755, ModTime: mt, Format: format}); err != nil {
 		return nil, err
 	}
@@ -159,14 +205,56 @@ func writeForeignTar(p forP, ents map[string]*fEnt, order []string) ([]byte, err
 			h.Typeflag, h.Linkname, h.Mode = tar.TypeSymlink, e.Sym, 0o777
 		case e.Hard != "":
 			h.Typeflag, h.Linkname = tar.TypeLink, name(e.Hard, false)
+		case e.Special != 0:
+			h.Typeflag = e.Special
+			if e.Special != tar.TypeFifo {
+				h.Devmajor, h.Devminor = 1, 3
+			}
 		default:
 			h.Typeflag = tar.TypeReg
 			h.Size = int64(len(e.Data))
 		}
+		if len(e.Holes) > 0 {
+			var phys []byte
+			for _, fr := range e.Holes {
+				phys = append(phys, e.Data[fr[0]:fr[0]+fr[1]]...)
+			}
+			_ = tw.Flush()
+			at := buf.Len()
+			h.Size = int64(len(phys))
+			h.Uid, h.Gid, h.Uname, h.Gname, h.ModTime = 1000, 1000, "user", "group", mt
+			if err := tw.WriteHeader(h); err != nil {
+				return nil, fmt.Errorf("%s: %w", h.Name, err)
+			}
+			if _, err := tw.Write(phys); err != nil {
+				return nil, err
+			}
+			_ = tw.Flush()
+			// turn the header into an old GNU sparse header: typeflag 'S', map at 386 (offset[12] numbytes[12] x 4), isextended at 482, realsize at 483
+			blk := buf.Bytes()[at : at+512]
+			putOct := func(dst []byte, v int64) {
+				copy(dst, fmt.Sprintf("%0*o", len(dst)-1, v))
+				dst[len(dst)-1] = 0
+			}
+			blk[156] = tar.TypeGNUSparse
+			for i, fr := range e.Holes {
+				putOct(blk[386+i*24:386+i*24+12], fr[0])
+				putOct(blk[386+i*24+12:386+i*24+24], fr[1])
+			}
+			blk[482] = 0
+			putOct(blk[483:495], int64(len(e.Data)))
+			copy(blk[148:156], "        ")
+			var sum int64
+			for _, b := range blk {
+				sum += int64(b)
+			}
+			copy(blk[148:156], fmt.Sprintf("%06o\x00 ", sum))
+			continue
+		}
 		if err := tw.WriteHeader(h); err != nil {
 			return nil, fmt.Errorf("%s: %w", h.Name, err)
 		}
-		if !e.Dir && e.Sym == "" && e.Hard == "" {
+		if !e.Dir && e.Sym == "" && e.Hard == "" && e.Special == 0 {
 			if _, err := tw.Write(e.Data); err != nil {
 				return nil, err
 			}
@@ -251,7 +339,7 @@ func forRun(prop, tier string, c Case, w *Worker) (res Result) {
 	for pp, e := range ents {
 		if e.Dir {
 			want[pp] = Entry{Kind: "d"}
-		} else if e.Sym != "" || e.Hard != "" {
+		} else if e.Sym != "" || e.Hard != "" || e.Special != 0 {
 			want[pp] = Entry{Kind: "l"}
 		} else {
 			want[pp] = Entry{Kind: "f", Size: int64(len(e.Data)), RdLen: int64(len(e.Data)), Sum: sum(e.Data)}
@@ -396,7 +484,7 @@ func forRun(prop, tier string, c Case, w *Worker) (res Result) {
 		for pp, e := range want {
 			if e.Kind == "f" {
 				fs2 = append(fs2, pp)
-			} else if pp != "/" {
+			} else if e.Kind == "d" && pp != "/" {
 				ds2 = append(ds2, pp)
 			}
 		}
